@@ -7,9 +7,14 @@ import Hive.Model.C12aMap
 the `id`-th `Push` created it), carries the immutable `key` (priority) and `val`, and its mutable
 `index` field lives in the table `idx` (`idx[id]`; `-1` once the element left the heap).  `swap`,
 `pushLast`, `popLast` are `Heap.Swap/Push/Pop` of generalheap.go with their index maintenance,
-`up`/`down`/`heapPush`/`heapPop`/`heapRemove` are `container/heap`'s algorithms verbatim.  `desc`
-selects the comparison (`timeDescending` / a descending priority type): `Less(i,j)` is
-`CompareTo < 0`.
+`up`/`down`/`heapPush`/`heapPop`/`heapRemove` are `container/heap`'s algorithms verbatim.
+
+The comparison is **abstract**: `cmp : Cmp` is the key type's `CompareTo(other) int`, any function
+whose *sign* is a total preorder (`generalheap.Comparable` promises nothing about magnitudes:
+`-1/0/1`, `a - b`, `MinInt/MaxInt` are all legal).  `Less(i,j)` is `CompareTo < 0`, `PopUntil` tests
+`CompareTo <= 0`; nothing else of the result is looked at, and every theorem about the heap holds for
+every `Cmp`.  `Cmp.ofSign`, `Cmp.diff`, `Cmp.flip` are the comparators the tie instantiates the Go
+type parameter with.
 -/
 namespace Hive.C12a.Heap
 
@@ -21,24 +26,58 @@ deriving Repr, DecidableEq
 
 instance : Inhabited Elem := ⟨⟨0, 0, 0⟩⟩
 
+/-- A legal `CompareTo`: `f a b` is `a.CompareTo(b)`.  Only its sign carries meaning: `anti` says
+the sign flips when the arguments are swapped (so `f a a = 0`), `trans` that `≤ 0` is transitive —
+together: "`f a b ≤ 0`" is a total preorder. -/
+structure Cmp where
+  f : Int → Int → Int
+  anti : ∀ a b, f a b < 0 ↔ 0 < f b a
+  trans : ∀ a b c, f a b ≤ 0 → f b c ≤ 0 → f a c ≤ 0
+
+/-- The comparator that answers `neg` for smaller, `pos` for larger, `0` for equal integer keys
+(`-1/1`: the repository's own comparators; `MinInt64/MaxInt64`, `-3/5`, … are just as legal). -/
+def Cmp.ofSign (neg pos : Int) (hn : neg < 0) (hp : 0 < pos) : Cmp where
+  f a b := if a < b then neg else if b < a then pos else 0
+  anti a b := by
+    by_cases h1 : a < b <;> by_cases h2 : b < a <;> simp [h1, h2] <;> omega
+  trans a b c := by
+    by_cases h1 : a < b <;> by_cases h2 : b < a <;> by_cases h3 : b < c <;> by_cases h4 : c < b <;>
+      by_cases h5 : a < c <;> by_cases h6 : c < a <;> simp [h1, h2, h3, h4, h5, h6] <;> omega
+
+/-- The `return a - b` comparator (exact integers; the tie keeps its keys where Go's `int` is exact). -/
+def Cmp.diff : Cmp where
+  f a b := a - b
+  anti a b := by omega
+  trans a b c := by omega
+
+/-- The reversed comparator: `a.CompareTo(b)` answers what `b.CompareTo(a)` answered. -/
+def Cmp.flip (c : Cmp) : Cmp where
+  f a b := c.f b a
+  anti a b := c.anti b a
+  trans a b d h1 h2 := c.trans d b a h2 h1
+
+/-- Ascending `-1/0/1` (`timeAscending`, an ascending priority type). -/
+def Cmp.asc : Cmp := Cmp.ofSign (-1) 1 (by decide) (by decide)
+/-- Descending `-1/0/1` (`timeDescending`). -/
+def Cmp.dsc : Cmp := Cmp.asc.flip
+
 structure St where
-  desc : Bool
+  cmp : Cmp
   arr : List Elem
   idx : List Int
-deriving Repr
 
-def init (desc : Bool) : St := { desc := desc, arr := [], idx := [] }
+def init (cmp : Cmp) : St := { cmp := cmp, arr := [], idx := [] }
 
 /-- `a.Key.CompareTo(b.Key) < 0`. -/
-def lessK (desc : Bool) (a b : Int) : Bool := if desc then decide (b < a) else decide (a < b)
+def lessK (c : Cmp) (a b : Int) : Bool := decide (c.f a b < 0)
 
 /-- `a.Key.CompareTo(b.Key) <= 0`. -/
-def leK (desc : Bool) (a b : Int) : Bool := !lessK desc b a
+def leK (c : Cmp) (a b : Int) : Bool := decide (c.f a b ≤ 0)
 
 def St.at (s : St) (i : Nat) : Elem := s.arr.getD i default
 
 /-- `Less(i, j)`. -/
-def less (s : St) (i j : Nat) : Bool := lessK s.desc (s.at i).key (s.at j).key
+def less (s : St) (i j : Nat) : Bool := lessK s.cmp (s.at i).key (s.at j).key
 
 /-- `Swap(i, j)`: `h[i], h[j] = h[j], h[i]; h[i].index, h[j].index = i, j`. -/
 def swap (s : St) (i j : Nat) : St :=
@@ -129,7 +168,7 @@ def pop (s : St) : St × Option Elem :=
 def popUntilAux (p : Int) : Nat → St → List Elem → St × List Elem
   | 0, s, acc => (s, acc)
   | fuel + 1, s, acc =>
-    if s.arr.length ≠ 0 ∧ leK s.desc (s.at 0).key p = true then
+    if s.arr.length ≠ 0 ∧ leK s.cmp (s.at 0).key p = true then
       let r := heapPop s
       popUntilAux p fuel r.1 (acc ++ [r.2])
     else (s, acc)
@@ -201,6 +240,22 @@ def parseDesc : String → Option Bool
   | "default" => some true    -- timed.NewPriorityQueue() without argument is descending
   | _ => none
 
+/-- The comparator kinds of the tie (the harness has one Go priority type per kind). -/
+def parseKind : String → Option Cmp
+  | "unit" => some Cmp.asc
+  | "diff" => some Cmp.diff
+  | "big" => some (Cmp.ofSign (-1099511627776) 1099511627776 (by decide) (by decide))
+  | "ext" => some (Cmp.ofSign (-9223372036854775808) 9223372036854775807 (by decide) (by decide))
+  | "asym" => some (Cmp.ofSign (-3) 5 (by decide) (by decide))
+  | "two" => some (Cmp.ofSign (-2) 1 (by decide) (by decide))
+  | _ => none
+
+/-- `new <asc|desc|default> [kind]`: descending = the same comparator with the arguments swapped. -/
+def parseCmp (d kind : String) : Option Cmp :=
+  match parseDesc d, parseKind kind with
+  | some d, some c => some (if d then c.flip else c)
+  | _, _ => none
+
 /-- White-box state of the `gh` stream: the array and the index field of every element ever pushed. -/
 def showStateGH (s : St) : String :=
   "[" ++ " ".intercalate (s.arr.map (fun e => s!"{e.val}:{e.key}")) ++ "] i" ++ showIntList s.idx
@@ -211,7 +266,8 @@ def showStatePQ (s : St) : String := showVals s.arr
 /-- Requests common to `pq` and `tpq` (`timed`: `Push` returns no handle). -/
 def stepPQ (timed : Bool) (s : St) (toks : List String) : St × String :=
   match toks with
-  | ["new", d] => match parseDesc d with | some d => (init d, "ok") | none => (s, "bad-op")
+  | ["new", d] => match parseCmp d "unit" with | some c => (init c, "ok") | none => (s, "bad-op")
+  | ["new", d, k] => match parseCmp d k with | some c => (init c, "ok") | none => (s, "bad-op")
   | ["push", v, p] =>
     match v.toNat?, p.toInt? with
     | some v, some p => let r := push s v p; (r.1, if timed then "ok" else toString r.2)
@@ -242,7 +298,8 @@ def stepPQ (timed : Bool) (s : St) (toks : List String) : St × String :=
 /-- Requests of the white-box stream on `generalheap.Heap` driven by `container/heap` directly. -/
 def stepGH (s : St) (toks : List String) : St × String :=
   match toks with
-  | ["new", d] => match parseDesc d with | some d => (init d, "ok") | none => (s, "bad-op")
+  | ["new", d] => match parseCmp d "unit" with | some c => (init c, "ok") | none => (s, "bad-op")
+  | ["new", d, k] => match parseCmp d k with | some c => (init c, "ok") | none => (s, "bad-op")
   | ["push", v, p] =>
     match v.toNat?, p.toInt? with
     | some v, some p => let r := push s v p; (r.1, toString r.2)
